@@ -510,7 +510,7 @@ def src_text(e):
     return "?"
 
 
-NOARG_STRUCTS = {"CompleteOnUnwind", "BufferedIter", "Taken", "CounterNew", "SliceNew", "RangeNew", "VecNew", "ArrNew"}
+NOARG_STRUCTS = {"CompleteOnUnwind", "BufferedIter", "Taken", "CounterNew", "SliceNew", "RangeNew", "VecNew", "ArrNew", "IterNew"}
 
 
 class Emitter:
@@ -677,9 +677,24 @@ class Emitter:
             t = self.fresh()
             pad = " " * (ind + 2)
             arms = []
-            for (pat, guard, body) in e[2]:
-                if guard is not None:
+            last = e[2][-1] if e[2] else None
+            fallback = last[2] if (last is not None and last[0] == ("pwild",) and last[1] is None) else None
+            for idx, (pat, guard, body) in enumerate(e[2]):
+                if guard is not None and fallback is not None:
+                    # `P if g => A` directly before the final `_ => B`: `P => if g { A } else { B }`
+                    if idx != len(e[2]) - 2:
+                        arms.append("%s| %s => %s" % (pad, self.pat(pat), self.unsup("match guard not followed by the final wildcard arm")))
+                        continue
+                    gl, g = self.ex(guard, ind + 4)
+                    pad4 = " " * (ind + 4)
+                    arms.append("%s| %s => (do\n%s\n%slet r__ ← (if %s = true then %s else %s)\n%spure r__)" % (
+                        pad, self.pat(pat), "\n".join(pad4 + l for l in gl), pad4, g, self.do_block(body, ind + 6), self.do_block(fallback, ind + 6), pad4))
+                elif guard is not None:
                     arms.append("%s| %s => %s" % (pad, self.pat(pat), self.unsup("match guard")))
+                elif fallback is not None and idx == len(e[2]) - 1 and len(e[2]) >= 2 and e[2][-2][1] is not None:
+                    # the final wildcard after a guarded arm has been folded into that arm; Lean rejects a redundant
+                    # alternative, and reports missing cases if the remaining patterns are not exhaustive
+                    continue
                 else:
                     arms.append("%s| %s => %s" % (pad, self.pat(pat), self.do_block(body, ind + 4)))
             return ls + ["let %s ← (match %s with\n%s)" % (t, s, "\n".join(arms))], t
@@ -1350,6 +1365,7 @@ TARGETS += [
     T("NewRange", "iter/implementors/range.rs", r"impl<Idx> ConIterOfRange", ["new"], None, self_struct="RangeNew", params={"range": "RangeObj"}),
     T("NewVec", "iter/implementors/vec.rs", r"impl<T: Send \+ Sync> ConIterOfVec", ["new"], None, self_struct="VecNew", params={"vec": "VecObj"}),
     T("NewArr", "iter/implementors/array.rs", r"impl<const N: usize, T: Send \+ Sync> ConIterOfArray", ["new"], None, self_struct="ArrNew", params={"array": "ArrObj"}),
+    T("NewIter", "iter/implementors/iter.rs", r"impl<T: Send \+ Sync, Iter> ConIterOfIter", ["new"], None, self_struct="IterNew", params={"iter": "WrappedIt"}),
     T("CtorVec", CT + "vec.rs", r"ConcurrentIterable for Vec<T>", ["con_iter"], "VecObj", ctor_of="NewSlice"),
     T("CtorVec", CT + "vec.rs", r"IntoConcurrentIter for Vec<T>", ["into_con_iter"], "VecObj", ctor_of="NewVec"),
     T("CtorArr", CT + "array.rs", r"ConcurrentIterable for \[T; N\]", ["con_iter"], "ArrObj", ctor_of="NewSlice"),
